@@ -311,19 +311,18 @@ class Lexer:
                         self.error("Invalid character after \\u, expected {")
                     self.advance()
                     codepoint: str = ""
-                    for _ in range(8):
+                    while self.current_char in HEX_NUMBER:
                         codepoint += self.current_char
-                        if self.current_char not in HEX_NUMBER:
-                            self.error(
-                                "Invalid unicode codepoint, expected hexadecimal number"
-                            )
                         self.advance()
-                        if self.current_char == "}":
-                            break
-                    else:
+                    if not codepoint:
                         self.error(
-                            "Unicode codepoints can be at most 2^31 - 1, did not close unicode escape"
+                            "Invalid unicode codepoint, expected hexadecimal number"
                         )
+                    if self.current_char != "}":
+                        self.error("Did not close unicode escape")
+                    if int(codepoint, 16) >= 2**31:
+                        self.error("Unicode codepoints can be at most 2^31 - 1")
+                    self.advance()
                     result += self._safe_code_point(int(codepoint, 16))
                 # handle the decimal character specification case
                 elif self.current_char in NUMBER:
